@@ -18,7 +18,7 @@ use std::sync::{Arc, Mutex};
 use std::time::{Duration, Instant};
 
 pub const LEVEL: &str = "exploration";
-pub const RULE: &str = "case = scenario on a real connected client (Connector::connect over a socket pair and TLS) whose receive thread is the binary's launch_rdp_thread: 1..12 fast-path bitmap PDUs tagged with serial numbers; a packing of PDUs into TLS records (one per record, several per record, one PDU split over 2-3 records) and of records into socket writes (one write per record, all coalesced, 1..n-byte pieces) with seeded pauses (0 / 100 us / 5 ms); an end mode (disconnect-provider ultimatum, TLS close_notify then close, abrupt close, undecodable PDU then close, connection reset (RST, on the loopback-TCP transport), none) placed before any PDU, between PDUs or inside a PDU; 0..2 concurrent writer threads doing lock + try_write. Oracle: with the server silent and open every PDU already sent arrives on the bitmap channel in serial order within 30 s (a miss is confirmed by a 'poke' PDU: if the missing events then arrive the thread was waiting for further server traffic); after the end event the thread's JoinHandle is finished within 30 s and the shared client is released (a live thread is classified as spinning or blocked by process CPU time); everything sent before the end was forwarded in order. Scenarios may start with 1-2 bitmap PDUs in the TLS record of the font-map (decrypted before the receive thread exists: they must be delivered with the server silent) and may use PDUs larger than one TLS record (64x64 raw rectangles), also cut in half by the end event. The matrix section covers every end mode at every protocol point and every packing (one / several / split PDUs per record) on a plain-TLS and on a CredSSP (PROTOCOL_HYBRID) session, plus scenarios that start with 6 s (thorough: 2, 6, 11, 31, 61 s) of complete server silence; one generated scenario in three runs on a CredSSP session. Scenarios run one at a time. Non-trivial = packing other than one-PDU-per-record-per-write, or an end mode other than none; distinct by hash of the scenario.";
+pub const RULE: &str = "case = scenario on a real connected client (Connector::connect over a socket pair and TLS) whose receive thread is the binary's launch_rdp_thread: 1..12 fast-path bitmap PDUs tagged with serial numbers; a packing of PDUs into TLS records (one per record, several per record, one PDU split over 2-3 records) and of records into socket writes (one write per record, all coalesced, 1..n-byte pieces) with seeded pauses (0 / 100 us / 5 ms); an end mode (disconnect-provider ultimatum, TLS close_notify then close, abrupt close, undecodable PDU then close, connection reset (RST, on the loopback-TCP transport), none) placed before any PDU, between PDUs or inside a PDU; 0..2 concurrent writer threads doing lock + try_write. Oracle: with the server silent and open every PDU already sent arrives on the bitmap channel in serial order within 30 s (a miss is confirmed by a 'poke' PDU: if the missing events then arrive the thread was waiting for further server traffic); after the end event the thread's JoinHandle is finished within 30 s and the shared client is released (a live thread is classified as spinning or blocked by process CPU time); everything sent before the end was forwarded in order. A scenario may contain a reactivation (deactivate-all + demand-active in one TLS record, one record each, or behind a bitmap PDU): the client's finalization must arrive with the server silent, and bitmaps flow again afterwards; one matrix scenario pushes 66 000 bitmaps through the session first. Scenarios may start with 1-2 bitmap PDUs in the TLS record of the font-map (decrypted before the receive thread exists: they must be delivered with the server silent) and may use PDUs larger than one TLS record (64x64 raw rectangles), also cut in half by the end event. The matrix section covers every end mode at every protocol point and every packing (one / several / split PDUs per record) on a plain-TLS and on a CredSSP (PROTOCOL_HYBRID) session, plus scenarios that start with 6 s (thorough: 2, 6, 11, 31, 61 s) of complete server silence; one generated scenario in three runs on a CredSSP session. Scenarios run one at a time. Non-trivial = packing other than one-PDU-per-record-per-write, or an end mode other than none; distinct by hash of the scenario.";
 
 // generous: a loaded machine must not turn into a violation; waiting costs nothing when things work (the collectors return
 // as soon as everything has arrived), only failing scenarios take this long
@@ -85,6 +85,13 @@ pub struct Case {
     /// the PDUs carry 64x64 raw 32 bpp rectangles: bodies larger than one TLS record (16 KiB)
     #[serde(default)]
     pub big: bool,
+    /// this many extra bitmap PDUs (256 per TLS record) go through the session first: counters that wrap
+    #[serde(default)]
+    pub bulk: u32,
+    /// after the bitmaps the server reactivates the session: 1 = deactivate-all and demand-active in ONE TLS record, 2 = one
+    /// record each, 3 = both behind a bitmap PDU in one record; the client's confirm-active must arrive with the server silent
+    #[serde(default)]
+    pub reactivate: u8,
 }
 
 /// the transport under the client and under the server's TLS: a unix socket pair or loopback TCP
@@ -223,6 +230,8 @@ struct Session {
     sync: Arc<AtomicBool>,
     rx: Receiver<BitmapEvent>,
     handle: Option<std::thread::JoinHandle<()>>,
+    /// the reference server that ran the connection setup (kept for reactivations during the scenario)
+    server: Server,
 }
 
 fn setup(nla: bool, tcp: bool, early: u8) -> Result<Session, String> {
@@ -277,7 +286,7 @@ fn setup(nla: bool, tcp: bool, early: u8) -> Result<Session, String> {
     let sync = Arc::new(AtomicBool::new(true));
     let (tx, rx) = channel();
     let handle = mstsc::spawn_rdp_thread(fd as usize, client.clone(), sync.clone(), tx).map_err(|e| format!("launch_rdp_thread: {:?}", e))?;
-    Ok(Session { tls, client, sync, rx, handle: Some(handle) })
+    Ok(Session { tls, client, sync, rx, handle: Some(handle), server })
 }
 
 fn cpu_ms() -> u64 {
@@ -435,6 +444,55 @@ pub fn run(c: &Case) -> Outcome {
     let records = pack(&pdus, c.records);
     let mut got: Vec<u16> = Vec::new();
     let mut io_err = None;
+    if c.bulk > 0 && early == 0 {
+        out.label("bulk");
+        let mut sent = 0u32;
+        let mut received = 0u32;
+        let t0 = Instant::now();
+        while sent < c.bulk {
+            let k = (c.bulk - sent).min(256);
+            let mut rec = Vec::new();
+            for i in 0..k {
+                rec.extend_from_slice(&serial_pdu(((sent + i) % 50000) as u16));
+            }
+            if let Err(e) = s.tls.write_all(&rec) {
+                out.fail("inconclusive:server-io", format!("server-side write failed during the bulk phase: {}", e));
+                return out;
+            }
+            sent += k;
+            // keep the channel drained
+            while let Ok(b) = s.rx.try_recv() {
+                if b.dest_left as u32 != received % 50000 {
+                    out.fail("delivery:wrong-events:bulk", format!("bulk bitmap #{} arrived with serial {}", received, b.dest_left));
+                    return out;
+                }
+                received += 1;
+            }
+        }
+        while received < c.bulk && t0.elapsed() < T_DELIVER + Duration::from_secs(60) {
+            match s.rx.recv_timeout(Duration::from_millis(200)) {
+                Ok(b) => {
+                    if b.dest_left as u32 != received % 50000 {
+                        out.fail("delivery:wrong-events:bulk", format!("bulk bitmap #{} arrived with serial {}", received, b.dest_left));
+                        return out;
+                    }
+                    received += 1;
+                }
+                Err(_) => {
+                    if s.handle.as_ref().map(|h| h.is_finished()).unwrap_or(true) {
+                        break;
+                    }
+                }
+            }
+        }
+        if received < c.bulk {
+            let alive = s.handle.as_ref().map(|h| !h.is_finished()).unwrap_or(false);
+            out.fail("delivery:bulk-incomplete", format!("{} of {} bitmap PDUs of a long session were forwarded (receive thread alive: {})", received, c.bulk, alive));
+            s.sync.store(false, Ordering::Relaxed);
+            let _ = s.tls.get_mut().sock.shutdown(std::net::Shutdown::Both);
+            return out;
+        }
+    }
     if early > 0 {
         // nothing else has been sent: the PDUs that arrived with the font-map must come out on their own
         collect(&s.rx, &mut got, early, T_DELIVER);
@@ -544,6 +602,70 @@ pub fn run(c: &Case) -> Outcome {
             return out;
         }
     }
+    if c.reactivate > 0 && io_err.is_none() {
+        out.label("reactivation");
+        let su = s.server.profile.server_user;
+        let old = s.server.current_share();
+        let dea = s.server.wrap(&wire::deactivate_all(old, su)).bytes;
+        let d = wire::DemandActive { share_id: old ^ 0x0101_0000, source: b"RDP\0".to_vec(), caps: wire::sample_server_caps(), session_id: 0 };
+        let da = s.server.pdu_demand_active(&d).bytes;
+        s.server.phase = Phase::Activation(0);
+        let recs: Vec<Vec<u8>> = match c.reactivate % 4 {
+            1 => vec![[dea.clone(), da.clone()].concat()],
+            2 => vec![dea.clone(), da.clone()],
+            3 => vec![[serial_pdu(4242), dea.clone(), da.clone()].concat()],
+            _ => vec![[dea.clone(), da.clone()].concat()],
+        };
+        for r in &recs {
+            let _ = s.tls.write_all(r);
+        }
+        let _ = s.tls.get_mut().sock.set_timeouts(T_DELIVER);
+        let mut buf = vec![0u8; 8192];
+        let t0 = Instant::now();
+        while s.server.phase != Phase::Active {
+            match s.tls.read(&mut buf) {
+                Ok(0) => break,
+                Ok(n) => {
+                    let msgs = s.server.feed(&buf[..n]);
+                    // the finalization answers go out packed in one record as well
+                    let all: Vec<u8> = msgs.iter().flat_map(|m| m.bytes.iter().copied()).collect();
+                    if !all.is_empty() {
+                        let _ = s.tls.write_all(&all);
+                    }
+                }
+                Err(_) => break,
+            }
+            if t0.elapsed() > T_DELIVER + Duration::from_secs(10) {
+                break;
+            }
+        }
+        if s.server.phase != Phase::Active {
+            out.fail(
+                format!("stall:reactivation:{}", ["", "packed", "record-each", "behind-bitmap"][(c.reactivate % 4) as usize]),
+                format!("the server sent deactivate-all + demand-active ({} TLS records) and stayed silent; after {:?} the reactivation had not completed (server phase {:?}, {} client events seen): the PDUs were not read without further traffic", recs.len(), t0.elapsed(), s.server.phase, s.server.events.len()),
+            );
+            finish(&mut s, &stop_writers, writers);
+            return out;
+        }
+        if c.reactivate % 4 == 3 {
+            let mut one = Vec::new();
+            collect(&s.rx, &mut one, 1, T_DELIVER);
+            if one != vec![4242] {
+                out.fail("delivery:wrong-events:before-reactivation", format!("the bitmap in front of the deactivate-all arrived as {:?}", one));
+                finish(&mut s, &stop_writers, writers);
+                return out;
+            }
+        }
+        // bitmaps after the reactivation are delivered again
+        let _ = s.tls.write_all(&[serial_pdu(5001), serial_pdu(5002)].concat());
+        let mut after_re = Vec::new();
+        collect(&s.rx, &mut after_re, 2, T_DELIVER);
+        if after_re != vec![5001, 5002] {
+            out.fail("delivery:after-reactivation", format!("two bitmap PDUs sent after the completed reactivation arrived as {:?}", after_re));
+            finish(&mut s, &stop_writers, writers);
+            return out;
+        }
+    }
     // (ii) the end event
     if c.end != EndMode::None {
         pause(c.end_delay);
@@ -640,6 +762,7 @@ pub fn decode(s: &mut Src) -> Case {
     let tcp = s.chance(100);
     let early = if s.chance(48) { 1 + s.below(2) as u8 } else { 0 };
     let big = s.chance(40);
+    let reactivate = if s.chance(48) { 1 + s.below(3) as u8 } else { 0 };
     let silence_s = if s.chance(6) { 1 + s.below(2) as u8 } else { 0 };
     let records = match s.below(4) {
         0 => RecordPacking::OnePerRecord,
@@ -654,7 +777,7 @@ pub fn decode(s: &mut Src) -> Case {
     };
     let end = s.pick(&[EndMode::None, EndMode::DisconnectUltimatum, EndMode::CloseNotify, EndMode::AbruptClose, EndMode::UndecodableThenClose, EndMode::DisconnectUltimatum, EndMode::Reset]);
     let pdus = 1 + s.below(12) as u8;
-    Case { pdus, records, socket, pause: s.below(3) as u8, end, end_after: s.below(pdus as usize + 1) as u8, end_inside: s.chance(64), writers: s.below(3) as u8, end_delay: s.below(3) as u8, nla, silence_s, tcp, early, big }
+    Case { pdus, records, socket, pause: s.below(3) as u8, end, end_after: s.below(pdus as usize + 1) as u8, end_inside: s.chance(64), writers: s.below(3) as u8, end_delay: s.below(3) as u8, nla, silence_s, tcp, early, big, bulk: 0, reactivate }
 }
 
 fn matrix(thorough: bool) -> Vec<Case> {
@@ -662,18 +785,18 @@ fn matrix(thorough: bool) -> Vec<Case> {
     let mut v = Vec::new();
     for end in [EndMode::DisconnectUltimatum, EndMode::CloseNotify, EndMode::AbruptClose, EndMode::UndecodableThenClose] {
         for (end_after, inside) in [(0u8, false), (2, false), (2, true), (4, false)] {
-            v.push(Case { pdus: 4, records: RecordPacking::OnePerRecord, socket: SocketPacking::PerRecord, pause: 0, end, end_after, end_inside: inside, writers: 0, end_delay: 0, nla: false, silence_s: 0, tcp: false, early: 0, big: false });
+            v.push(Case { pdus: 4, records: RecordPacking::OnePerRecord, socket: SocketPacking::PerRecord, pause: 0, end, end_after, end_inside: inside, writers: 0, end_delay: 0, nla: false, silence_s: 0, tcp: false, early: 0, big: false, bulk: 0, reactivate: 0 });
         }
     }
     for records in [RecordPacking::OnePerRecord, RecordPacking::SplitAcrossRecords(2), RecordPacking::SplitAcrossRecords(3)] {
         for socket in [SocketPacking::PerRecord, SocketPacking::Coalesced, SocketPacking::Pieces(1), SocketPacking::Pieces(29)] {
-            v.push(Case { pdus: 5, records, socket, pause: 0, end: EndMode::None, end_after: 0, end_inside: false, writers: 1, end_delay: 0, nla: false, silence_s: 0, tcp: false, early: 0, big: false });
+            v.push(Case { pdus: 5, records, socket, pause: 0, end: EndMode::None, end_after: 0, end_inside: false, writers: 1, end_delay: 0, nla: false, silence_s: 0, tcp: false, early: 0, big: false, bulk: 0, reactivate: 0 });
         }
     }
     // several PDUs per TLS record, on a plain-TLS and on a CredSSP session
     for nla in [false, true] {
         for records in [RecordPacking::ManyPerRecord(2), RecordPacking::ManyPerRecord(3), RecordPacking::ManyPerRecord(5), RecordPacking::OnePerRecord, RecordPacking::SplitAcrossRecords(2)] {
-            v.push(Case { pdus: 6, records, socket: SocketPacking::PerRecord, pause: 0, end: if nla { EndMode::DisconnectUltimatum } else { EndMode::None }, end_after: 6, end_inside: false, writers: 0, end_delay: 0, nla, silence_s: 0, tcp: false, early: 0, big: false });
+            v.push(Case { pdus: 6, records, socket: SocketPacking::PerRecord, pause: 0, end: if nla { EndMode::DisconnectUltimatum } else { EndMode::None }, end_after: 6, end_inside: false, writers: 0, end_delay: 0, nla, silence_s: 0, tcp: false, early: 0, big: false, bulk: 0, reactivate: 0 });
         }
     }
     // loopback TCP: every end mode including a connection reset, at every protocol point; the packings once
@@ -682,17 +805,17 @@ fn matrix(thorough: bool) -> Vec<Case> {
             if end != EndMode::Reset && (end_after, inside) != (2, false) {
                 continue;
             }
-            v.push(Case { pdus: 4, records: RecordPacking::OnePerRecord, socket: SocketPacking::PerRecord, pause: 0, end, end_after, end_inside: inside, writers: (end_after % 2), end_delay: 0, nla: false, silence_s: 0, tcp: true, early: 0, big: false });
+            v.push(Case { pdus: 4, records: RecordPacking::OnePerRecord, socket: SocketPacking::PerRecord, pause: 0, end, end_after, end_inside: inside, writers: (end_after % 2), end_delay: 0, nla: false, silence_s: 0, tcp: true, early: 0, big: false, bulk: 0, reactivate: 0 });
         }
     }
     for (records, socket) in [(RecordPacking::ManyPerRecord(3), SocketPacking::PerRecord), (RecordPacking::SplitAcrossRecords(2), SocketPacking::Pieces(7)), (RecordPacking::OnePerRecord, SocketPacking::Coalesced)] {
-        v.push(Case { pdus: 6, records, socket, pause: 0, end: EndMode::Reset, end_after: 6, end_inside: false, writers: 0, end_delay: 1, nla: true, silence_s: 0, tcp: true, early: 0, big: false });
+        v.push(Case { pdus: 6, records, socket, pause: 0, end: EndMode::Reset, end_after: 6, end_inside: false, writers: 0, end_delay: 1, nla: true, silence_s: 0, tcp: true, early: 0, big: false, bulk: 0, reactivate: 0 });
     }
     // PDUs that arrive in the TLS record of the font-map (before the receive thread exists), then silence or more traffic
     for early in [1u8, 2] {
         for (pdus, end) in [(0u8, EndMode::None), (3, EndMode::DisconnectUltimatum)] {
             for nla in [false, true] {
-                v.push(Case { pdus, records: RecordPacking::OnePerRecord, socket: SocketPacking::PerRecord, pause: 0, end, end_after: pdus, end_inside: false, writers: 0, end_delay: 0, nla, silence_s: 0, tcp: false, early, big: false });
+                v.push(Case { pdus, records: RecordPacking::OnePerRecord, socket: SocketPacking::PerRecord, pause: 0, end, end_after: pdus, end_inside: false, writers: 0, end_delay: 0, nla, silence_s: 0, tcp: false, early, big: false, bulk: 0, reactivate: 0 });
             }
         }
     }
@@ -700,15 +823,25 @@ fn matrix(thorough: bool) -> Vec<Case> {
     for end in [EndMode::None, EndMode::CloseNotify, EndMode::AbruptClose, EndMode::DisconnectUltimatum, EndMode::UndecodableThenClose] {
         for inside in [false, true] {
             for tcp in [false, true] {
-                v.push(Case { pdus: 3, records: RecordPacking::OnePerRecord, socket: if tcp { SocketPacking::Pieces(1000) } else { SocketPacking::PerRecord }, pause: 0, end, end_after: 2, end_inside: inside && end != EndMode::None, writers: 0, end_delay: 0, nla: false, silence_s: 0, tcp, early: 0, big: true });
+                v.push(Case { pdus: 3, records: RecordPacking::OnePerRecord, socket: if tcp { SocketPacking::Pieces(1000) } else { SocketPacking::PerRecord }, pause: 0, end, end_after: 2, end_inside: inside && end != EndMode::None, writers: 0, end_delay: 0, nla: false, silence_s: 0, tcp, early: 0, big: true, bulk: 0, reactivate: 0 });
             }
         }
     }
+    // a reactivation in the middle of the session, packed into TLS records in three ways, on both kinds of session
+    for reactivate in 1..=3u8 {
+        for nla in [false, true] {
+            for end in [EndMode::None, EndMode::DisconnectUltimatum] {
+                v.push(Case { pdus: 2, records: RecordPacking::OnePerRecord, socket: SocketPacking::PerRecord, pause: 0, end, end_after: 2, end_inside: false, writers: 0, end_delay: 0, nla, silence_s: 0, tcp: false, early: 0, big: false, bulk: 0, reactivate });
+            }
+        }
+    }
+    // a long session: more bitmaps than a 16-bit counter holds, then the usual end
+    v.push(Case { pdus: 2, records: RecordPacking::OnePerRecord, socket: SocketPacking::PerRecord, pause: 0, end: EndMode::DisconnectUltimatum, end_after: 2, end_inside: false, writers: 0, end_delay: 0, nla: false, silence_s: 0, tcp: false, early: 0, big: false, bulk: 66_000, reactivate: 0 });
     // long server silence first (longer than common wait timeouts), then traffic and an end event
     let silences: &[u8] = if thorough { &[2, 6, 11, 31, 61] } else { &[6] };
     for &silence_s in silences {
-        v.push(Case { pdus: 3, records: RecordPacking::OnePerRecord, socket: SocketPacking::PerRecord, pause: 0, end: EndMode::DisconnectUltimatum, end_after: 3, end_inside: false, writers: 0, end_delay: 0, nla: false, silence_s, tcp: false, early: 0, big: false });
-        v.push(Case { pdus: 2, records: RecordPacking::ManyPerRecord(2), socket: SocketPacking::PerRecord, pause: 0, end: EndMode::AbruptClose, end_after: 0, end_inside: false, writers: 1, end_delay: 0, nla: false, silence_s, tcp: false, early: 0, big: false });
+        v.push(Case { pdus: 3, records: RecordPacking::OnePerRecord, socket: SocketPacking::PerRecord, pause: 0, end: EndMode::DisconnectUltimatum, end_after: 3, end_inside: false, writers: 0, end_delay: 0, nla: false, silence_s, tcp: false, early: 0, big: false, bulk: 0, reactivate: 0 });
+        v.push(Case { pdus: 2, records: RecordPacking::ManyPerRecord(2), socket: SocketPacking::PerRecord, pause: 0, end: EndMode::AbruptClose, end_after: 0, end_inside: false, writers: 1, end_delay: 0, nla: false, silence_s, tcp: false, early: 0, big: false, bulk: 0, reactivate: 0 });
     }
     v
 }
@@ -726,4 +859,5 @@ pub fn check(rep: &Report) {
     rep.require("scenarios", "transport:tcp", 10);
     rep.require("scenarios", "early-pdus", 5);
     rep.require("scenarios", "big-pdus", 5);
+    rep.require("scenarios", "reactivation", 5);
 }
